@@ -136,6 +136,23 @@ impl Property for C01 {
             }
             cases.push(c01_case(&s, "random"));
         }
+        // operators on every pair of edge integers and on mixed pairs (overflow, MIN / -1, MIN % -1, shifts of the exponent…)
+        let ints = int_pool();
+        for op in ["+", "-", "*", "/", "%", "^", "<", "=="] {
+            for a in &ints {
+                for b in &ints {
+                    let lines = vec![
+                        "new 0 hm".to_string(),
+                        format!("setv 0 {} I{}", xarg("a"), a),
+                        format!("setv 0 {} I{}", xarg("b"), b),
+                        format!("eval 0 ro s value {}", xarg(&format!("a {} b", op))),
+                        format!("eval 0 mut s value {}", xarg(&format!("a {}= b; a", op))),
+                        format!("eval 0 mut s value {}", xarg("-a - -b")),
+                    ];
+                    cases.push(Case { impl_lines: lines.clone(), drv_lines: lines, human: format!("a {} b with a = {}, b = {}", op, a, b), bucket: "operators".into() });
+                }
+            }
+        }
         // builtins on everything
         let pool = value_pool();
         let pool2 = small_pool();
